@@ -611,6 +611,28 @@ impl Gen {
               let p = self.fresh_lower(rng, &taken);
               s.push_str(&format!("    let _ = ({p}: OnlyInALambdaParameterAnnotation{n}) -> 1;\n"));
             }
+            0 if rng.chance(1, 5) => {
+              // a tuple at and beyond the size limit (16), from names only or with a literal in it
+              let n = *rng.pick(&[3usize, 8, 15, 16, 17, 18, 21]);
+              let name_of_int: Option<String> =
+                scope.locals.iter().find(|(_, t)| *t == Ty::Int).map(|(n, _)| n.clone());
+              let elem = match (&name_of_int, rng.chance(2, 3)) {
+                (Some(n), true) => n.clone(),
+                _ => "7".to_string(),
+              };
+              let mut elems = vec![elem; n];
+              if rng.chance(1, 4) {
+                let at = rng.below(n);
+                elems[at] = "40 + 2".to_string();
+              }
+              if rng.chance(1, 3) {
+                let names: Vec<String> = (0..n).map(|i| format!("tupleElement{i}")).collect();
+                s.push_str(&format!("    let ({}) = ({});\n", names.join(", "), elems.join(", ")));
+              } else {
+                let t = self.fresh_lower(rng, &taken);
+                s.push_str(&format!("    let {t} = ({});\n", elems.join(", ")));
+              }
+            }
             0 => {
               // tuple expression and tuple pattern (std.tuples may or may not be present)
               let a = self.fresh_lower(rng, &taken);
@@ -629,6 +651,17 @@ impl Gen {
               s.push_str(&format!("    Process.println(if {c1} {{ {e} }} else if {c2} {{ {e2} }} else {{ {e3} }});\n"));
             }
             _ => s.push_str(&format!("    Process.println({e});\n")),
+          }
+        }
+        _ if rng.chance(1, 2) => {
+          // lambda whose body is a match (or if-let) over a captured value
+          let name = self.fresh_lower(rng, &taken);
+          let rty = if rng.chance(1, 2) { Ty::Int } else { Ty::Str };
+          if let Some(m) = self.gen_match(rng, &rty, 2, scope, visible) {
+            s.push_str(&format!("    let {name} = () -> {m};\n"));
+            let r = self.fresh_lower(rng, &[taken, vec![name.clone()]].concat());
+            s.push_str(&format!("    let {r} = {name}();\n"));
+            scope.locals.push((r, rty));
           }
         }
         _ => {
@@ -871,9 +904,47 @@ impl Gen {
     }
     let mut arms = Vec::new();
     let drop_last = variants.len() > 1 && rng.chance(1, 10); // non-exhaustive on purpose
+    let or_patterns = rng.chance(1, 3);
+    let mut skip_next = false;
     for (i, (v, payload)) in variants.iter().enumerate() {
       if drop_last && i + 1 == variants.len() {
         break;
+      }
+      if skip_next {
+        skip_next = false;
+        continue;
+      }
+      if or_patterns
+        && i + 1 < variants.len()
+        && !(drop_last && i + 2 == variants.len())
+        && variants[i + 1].1 == *payload
+        && rng.chance(2, 3)
+      {
+        // `A(x) | B(x) -> e`: the later alternative's names are uses of the first one's
+        let taken: Vec<String> = scope.locals.iter().map(|(n, _)| n.clone()).collect();
+        let mut binds: Vec<String> = Vec::new();
+        for _ in payload {
+          binds.push(self.fresh_lower(rng, &[taken.clone(), binds.clone()].concat()));
+        }
+        let mut second = binds.clone();
+        if !second.is_empty() && rng.chance(1, 12) {
+          second[0] = format!("{}InconsistentlyNamed{}", second[0], rng.below(100_000));
+        }
+        let v2 = &variants[i + 1].0;
+        let pat = if payload.is_empty() {
+          format!("{v} | {v2}")
+        } else {
+          format!("{v}({}) | {v2}({})", binds.join(", "), second.join(", "))
+        };
+        let saved = scope.locals.len();
+        for (b, t) in binds.iter().zip(payload.iter()) {
+          scope.locals.push((b.clone(), t.clone()));
+        }
+        let e = self.gen_expr(rng, ty, depth - 1, scope, visible);
+        scope.locals.truncate(saved);
+        arms.push(format!("{pat} -> {e}"));
+        skip_next = true;
+        continue;
       }
       let taken: Vec<String> = scope.locals.iter().map(|(n, _)| n.clone()).collect();
       let mut binds = Vec::new();
@@ -949,6 +1020,67 @@ pub fn garbled(rng: &mut Rng, text: &str) -> String {
       }
     }
   }
+}
+
+/// several token-level faults in one document (a user in the middle of a larger edit)
+pub fn garbled_many(rng: &mut Rng, text: &str) -> String {
+  let mut t = text.to_string();
+  for _ in 0..rng.range(2, 4) {
+    t = garbled(rng, &t);
+  }
+  t
+}
+
+/// delete one to four *names* — biased to the places where the parser expects a name and puts a
+/// placeholder when there is none (after `class`, `interface`, `function`, `method`, `val`, `let`,
+/// `private`, `.`, `|`, `<`, `(`, `,`)
+pub fn placeholders(rng: &mut Rng, text: &str) -> String {
+  let mut t = text.to_string();
+  for _ in 0..rng.range(1, 4) {
+    let toks = tokens(&t);
+    let is_name = |k: usize| {
+      let (s, e) = toks[k];
+      let w = &t[s..e];
+      w.as_bytes()[0].is_ascii_alphabetic()
+        && !matches!(
+          w,
+          "class" | "interface" | "function" | "method" | "val" | "let" | "if" | "else" | "match" | "import" | "from" | "private" | "as" | "this" | "true" | "false" | "int" | "bool" | "unit"
+        )
+    };
+    let names: Vec<usize> = (0..toks.len()).filter(|k| is_name(*k)).collect();
+    let expected: Vec<usize> = names
+      .iter()
+      .copied()
+      .filter(|k| {
+        *k > 0 && {
+          let (s, e) = toks[*k - 1];
+          matches!(
+            &t[s..e],
+            "class" | "interface" | "function" | "method" | "val" | "let" | "private" | "." | "|" | "<" | "(" | ","
+          )
+        }
+      })
+      .collect();
+    let declared: Vec<usize> = expected
+      .iter()
+      .copied()
+      .filter(|k| {
+        let (s, e) = toks[*k - 1];
+        matches!(&t[s..e], "class" | "interface" | "|")
+      })
+      .collect();
+    let pool = match rng.below(4) {
+      0 | 1 if !declared.is_empty() => &declared,
+      2 if !expected.is_empty() => &expected,
+      _ => &names,
+    };
+    if pool.is_empty() {
+      break;
+    }
+    let (s, e) = toks[*rng.pick(pool)];
+    t = format!("{}{}", &t[..s], &t[e..]);
+  }
+  t
 }
 
 /// change a definition without its uses / a use without its definition
